@@ -15,6 +15,7 @@ type c06Case struct {
 	Flags uint8  // parse flags
 	Blank string // blank-line form
 	Offs  int    // start offset
+	Cut   int    // 0: one call; > 0: first call sees buf[:Cut] (without no-more-data), the second the whole buffer
 }
 
 var c06Heads = []string{
@@ -23,6 +24,8 @@ var c06Heads = []string{
 	"l: %d\r\n",                            // compact
 	"Content-Length: %d\r\nX-After: 1\r\n", // before other headers
 	"X-Before: 1\r\nContent-Length:\r\n %d \r\n",
+	"Content-Length: %[1]d\r\nContent-Length: %[1]d\r\n", // repeated with the same value
+	"l: %[1]d\r\nX-Mid: 1\r\nContent-Length: %[1]d\r\nl:%[1]d\r\n",
 }
 
 func (cs *c06Case) render() (buf []byte, bodyStart int, hasCLen bool) {
@@ -51,9 +54,22 @@ func evalC06(cs *c06Case) (vs []*Violation, outcome string) {
 	}
 	var m sipsp.PSIPMsg
 	m.Init(nil, nil, nil)
-	n, e := sipsp.ParseSIPMsg(buf, cs.Offs, &m, cs.Flags)
+	var n int
+	var e sipsp.ErrorHdr
+	if cs.Cut > 0 {
+		n, e = sipsp.ParseSIPMsg(buf[:cs.Cut], cs.Offs, &m, cs.Flags&^sipsp.SIPMsgNoMoreDataF)
+		if e != sipsp.ErrHdrMoreBytes {
+			return nil, "prefix-definitive" // e.g. body = rest of the (shorter) buffer: nothing to resume
+		}
+		n, e = sipsp.ParseSIPMsg(buf, n, &m, cs.Flags)
+	} else {
+		n, e = sipsp.ParseSIPMsg(buf, cs.Offs, &m, cs.Flags)
+	}
 	skip, req, nomore := cs.Flags&sipsp.SIPMsgSkipBodyF != 0, cs.Flags&sipsp.SIPMsgCLenReqF != 0, cs.Flags&sipsp.SIPMsgNoMoreDataF != 0
 	cl := fmt.Sprintf("flags=%d/clen=%v", cs.Flags, hasCLen)
+	if cs.Cut > 0 {
+		cl += "/resumed"
+	}
 	if hasCLen && (cs.N > 1<<24 || len(fmt.Sprint(cs.N)) > 9) {
 		outcome = "clen-rejected"
 		if e == 0 || e == sipsp.ErrHdrMoreBytes {
@@ -124,12 +140,15 @@ var pipeMenu = []string{
 	"OPTIONS sip:o SIP/2.0\r\nX-Only: generic\r\nContent-Length: 0\r\n\r\n",
 	"BYE sip:b SIP/2.0\r\nCall-ID: nolen\r\nFrom: <sip:n@l>\r\n\r\n", // no Content-Length: only valid in pipelines under CLen-required
 	"NOTIFY sip:n SIP/2.0\r\nH1: 1\r\nH2: 2\r\nH3: 3\r\nH4: 4\r\nH5: 5\r\nH6: 6\r\nH7: 7\r\nH8: 8\r\nH9: 9\r\nH10: 10\r\nH11: 11\r\nContact: <sip:l@m>\r\nl: 2\r\n\r\nab",
+	"SIP/2.0 183 Session Progress\nv: SIP/2.0/UDP h;branch=z9hG4bKx\nCall-ID: lf@only\nContent-Length:\n 007\nCSeq: 2 INVITE\n\nv=0\r\n\r\n",
+	"MESSAGE sip:m@n SIP/2.0\rCall-ID: cr@only\rFrom: sip:u@v;tag=t\rl: 3\r\r\r\n\r", // lone-CR line ends, body is CR LF CR
 }
 
 type c06Pipe struct {
 	Seq   []int
 	Reset string // "reset" | "init" | "new"
 	Flags uint8
+	Cut   int // > 0: the stream arrives in two pieces, buf[:Cut] then the rest; a suspended message is resumed
 }
 
 func evalC06Pipe(p *c06Pipe) (vs []*Violation) {
@@ -148,6 +167,10 @@ func evalC06Pipe(p *c06Pipe) (vs []*Violation) {
 	m := new(sipsp.PSIPMsg)
 	m.Init(nil, nil, nil)
 	offs := 0
+	avail := len(buf)
+	if p.Cut > 0 && p.Cut < len(buf) {
+		avail = p.Cut
+	}
 	for k, mi := range p.Seq {
 		if k > 0 {
 			switch p.Reset {
@@ -165,7 +188,15 @@ func evalC06Pipe(p *c06Pipe) (vs []*Violation) {
 			return
 		}
 		// the pipeline buffer may hold further messages: parse with the whole buffer
-		n, e := sipsp.ParseSIPMsg(buf, offs, m, p.Flags)
+		n, e := 0, sipsp.ErrHdrOk
+		if avail < len(buf) && avail <= offs {
+			avail = len(buf) // nothing of this message has arrived yet
+		}
+		n, e = sipsp.ParseSIPMsg(buf[:avail], offs, m, p.Flags)
+		if e == sipsp.ErrHdrMoreBytes && avail < len(buf) {
+			avail = len(buf)
+			n, e = sipsp.ParseSIPMsg(buf, n, m, p.Flags)
+		}
 		// alone: same text at the same offset (junk before it, nothing after it), new object
 		alone := append([]byte(strings.Repeat("#", starts[k])), pipeMenu[mi]...)
 		am := new(sipsp.PSIPMsg)
@@ -189,7 +220,13 @@ func evalC06Pipe(p *c06Pipe) (vs []*Violation) {
 
 func checkC06(r *Run) {
 	r.Assume = []string{"reference = the framing table of the statement (mc/c06.go evalC06)", "pipelines are parsed with one reused object (Reset or Init in between) and with a new object; messages without Content-Length take part only under CLen-required"}
-	ns := []int64{0, 1, 2, 3, 4, 5, 6, 7, 8, 9, 10, 11, 12, 255, 256, 65000, 1 << 24, 1<<24 + 1, 1000000000}
+	ns := []int64{0, 1, 2, 3, 4, 5, 6, 7, 8, 9, 10, 11, 12, 255, 256, 65000, 65535, 65536, 65537, 131072, 1<<24 - 1, 1 << 24, 1<<24 + 1, 99999999, 100000000, 1000000000}
+	maxM := r.pick(14, 40)
+	if r.Tier != "quick" {
+		for n := int64(13); n <= 40; n++ {
+			ns = append(ns, n)
+		}
+	}
 	blanks := []string{"\r\n", "\n", "\r"}
 	var cases []c06Case
 	for h := range c06Heads {
@@ -197,12 +234,9 @@ func checkC06(r *Run) {
 			if h == 0 && n != 0 {
 				continue
 			}
-			for m := 0; m <= 14; m++ {
+			for m := 0; m <= maxM; m++ {
 				for f := uint8(0); f < 8; f++ {
 					for bi, b := range blanks {
-						if b == "\r" && m > 0 {
-							// a lone-CR blank line followed by body bytes is fine ('a' is not LF)
-						}
 						for _, o := range []int{0, 3} {
 							if o == 3 && (bi != 0 || m%3 != 0) {
 								continue
@@ -212,6 +246,48 @@ func checkC06(r *Run) {
 					}
 				}
 			}
+		}
+		// long bodies: one byte less than, exactly, and one byte more than declared; the largest one ends at 65535
+		if h > 0 {
+			_, bs0, _ := (&c06Case{Head: h, N: 60000, Blank: "\r\n"}).render()
+			for _, n := range []int64{41, 255, 256, 257, 1000, 4096, 60000, int64(65535 - bs0)} {
+				for _, m := range []int{int(n) - 1, int(n), int(n) + 1} {
+					if bs0+m > 65535 {
+						continue
+					}
+					for f := uint8(0); f < 8; f++ {
+						cases = append(cases, c06Case{Head: h, N: n, M: m, Flags: f, Blank: "\r\n"})
+					}
+				}
+			}
+		}
+	}
+	// resumed framing: the same cases delivered in two pieces, cut inside the body / around the blank line
+	// (thorough: every cut of the short cases)
+	one := len(cases)
+	for i := 0; i < one; i++ {
+		cs := cases[i]
+		if cs.Blank == "\r" && cs.M == 0 {
+			continue
+		}
+		buf, bs, _ := cs.render()
+		lo := bs - 3
+		if r.Tier != "quick" && len(buf) < 200 {
+			lo = cs.Offs + 1
+		}
+		step := 1
+		if len(buf)-lo > 64 {
+			step = (len(buf) - lo) / 8
+		}
+		for c := lo; c < len(buf); c += step {
+			cc := cs
+			cc.Cut = c
+			cases = append(cases, cc)
+		}
+		if step > 1 {
+			cc := cs
+			cc.Cut = len(buf) - 1
+			cases = append(cases, cc)
 		}
 	}
 	parallelFor(r, len(cases), func(c *enumCtx, i int) {
@@ -224,7 +300,7 @@ func checkC06(r *Run) {
 		c.st.Transitions++
 		c.st.States++
 		c.st.outcome(out)
-		if out != "more-bytes" {
+		if out != "more-bytes" && out != "prefix-definitive" {
 			c.st.Nontrivial++
 		}
 		for _, v := range vs {
@@ -232,7 +308,8 @@ func checkC06(r *Run) {
 		}
 	})
 	// pipelines: all sequences of length 1..K
-	K := r.pick(3, 4)
+	K := r.pick(3, 5)
+	KC := r.pick(3, 4) // sequences up to this length are also delivered in two pieces at every cut
 	var seqs [][]int
 	var rec func(cur []int)
 	rec = func(cur []int) {
@@ -258,16 +335,26 @@ func checkC06(r *Run) {
 			if !ok {
 				continue
 			}
+			total := 0
+			for _, mi := range seqs[i] {
+				total += len(pipeMenu[mi])
+			}
 			for _, rs := range []string{"reset", "init", "new"} {
-				vs := evalC06Pipe(&c06Pipe{Seq: seqs[i], Reset: rs, Flags: f})
-				c.st.Evals++
-				c.st.Transitions += int64(2 * len(seqs[i]))
-				c.st.States++
-				if len(seqs[i]) > 1 {
-					c.st.Nontrivial++
+				// cut 0: the whole stream is there; cut c: it arrives as [0,c) + the rest
+				if len(seqs[i]) > KC {
+					total = 1 // longest sequences: whole stream only
 				}
-				for _, v := range vs {
-					r.Col.add(v)
+				for cut := 0; cut < total; cut++ {
+					vs := evalC06Pipe(&c06Pipe{Seq: seqs[i], Reset: rs, Flags: f, Cut: cut})
+					c.st.Evals++
+					c.st.Transitions += int64(2 * len(seqs[i]))
+					c.st.States++
+					if len(seqs[i]) > 1 {
+						c.st.Nontrivial++
+					}
+					for _, v := range vs {
+						r.Col.add(v)
+					}
 				}
 			}
 		}
@@ -277,6 +364,7 @@ func checkC06(r *Run) {
 	r.Bounds["framing_cases"] = len(cases)
 	r.Bounds["pipeline_sequences"] = len(seqs)
 	r.Bounds["pipeline_max_len"] = K
+	r.Bounds["pipeline_max_len_with_every_cut"] = KC
 }
 
 func init() {
